@@ -44,7 +44,7 @@ CONSTANTS Clients,      \* set of client ids (integers)
           OpKinds,      \* subset of {"store","fetch","rise","clear"}
           EvictL1,      \* BOOLEAN: may an L1 drop entries spontaneously
           Restarts,     \* how often a server may restart (loses contents AND generation counter); 0 in C10
-          Mut           \* "none" | "l1hit" | "genreset" | "nopurge" | "nostoreinv" | "union"
+          Mut           \* "none" | "l1hit" | "genreset" | "nopurge" | "nostoreinv" | "union" | "emptykeep"
 
 VARIABLES conf,     \* [l1 |-> set of clients that have an L1, ns |-> number of servers]
           place,    \* key -> server
@@ -63,6 +63,11 @@ vars == <<conf, place, srv, genc, l1, pc, now, nv, genlog, killed, done>>
 Names   == Keys \cup Trigs
 AllSrv  == 0..(CHOOSE m \in NSrvs : \A x \in NSrvs : x <= m) - 1
 Servers == 0..(conf.ns - 1)
+
+(* Value ids: in the design every store writes a new id; ids divisible by 3 stand *)
+(* for the EMPTY string (a hit that carries no bytes - not a miss: `has' tells   *)
+(* them apart).  In traces the harness logs 0 for the empty string.              *)
+IsEmpty(v) == v % 3 = 0
 
 NoEntry == [has |-> FALSE, v |-> 0, ts |-> {}, dl |-> 0, gen |-> 0]
 Live(e, t)  == e.has /\ e.dl >= t
@@ -128,7 +133,10 @@ SrvF(T, c, s) ==
                   lv  == Live(e, T.now)
                   rep == IF ~lv THEN "no_data"
                          ELSE IF p.cond /\ e.gen = p.g THEN "uptodate" ELSE "data"
-                  dat == IF Mut = "union" /\ p.cond THEN [e EXCEPT !.ts = e.ts \cup p.l1e.ts] ELSE e
+                  dat == IF Mut = "union" /\ p.cond THEN [e EXCEPT !.ts = e.ts \cup p.l1e.ts]
+                         ELSE IF Mut = "emptykeep" /\ p.cond /\ IsEmpty(e.v)
+                              THEN [e EXCEPT !.v = p.l1e.v]   \* broken: an empty reply leaves the L1 copy in the buffer
+                              ELSE e
                   res == IF rep = "uptodate" THEN p.l1e ELSE IF rep = "data" THEN dat ELSE NoEntry
                   upd == /\ HasL1(T, c)
                          /\ \/ rep = "data"
